@@ -130,7 +130,7 @@ impl Property for C29 {
     ]
   }
   fn plan(tier: Tier) -> Plan {
-    Plan { workers: 16, cases_per_worker: tier.pick(300, 8000) }
+    Plan { workers: 16, cases_per_worker: tier.pick(1000, 100000) }
   }
   fn shrink_iters() -> u32 {
     1000
